@@ -98,7 +98,10 @@ DocText(d) == "type: test-only\nauthority-id: auth" \o RevText(d.rev) \o "\nprim
 DocRoundTrips(d) == \A i \in 1..Len(d.hs) : ~HasEmpty(d.hs[i][2])
 
 ----------------------------------------------------------------------------
-(* edit classes on a valid encoding and what the grammar says about the result *)
+(* edit classes on a valid encoding and what the grammar says about the result.
+   "body-length-minus" applies only to bodies that do not end in a newline: the stream grammar takes the
+   body by length, so `length - 1` with a body ending in LF is another well-formed stream document
+   (shorter body, signature preceded by a newline) although Decode (split at the last blank line) rejects it. *)
 EditExpect ==
     [c \in {"trunc-headers", "trunc-sep", "trunc-body", "body-length-plus", "body-length-minus",
             "body-length-negative", "body-length-huge", "body-length-nonnumeric", "dup-header", "missing-sep",
